@@ -257,7 +257,7 @@ PROPS['C11'] = dict(
              'InRamPolicySupporter.GetBestTrials'],
     bounds='order-type partition: n <= 3 points x d <= 2 coordinates in the quick tier (n=4,d=2 and n=3,d=3 thorough), '
            'coordinates are unbounded integers (all order types incl. ties and duplicates)',
-    outside='n*d > 9; +-inf/NaN inside the library routines; objective values that collide in float32 (GetBestTrials '
+    outside='n*d > 9; NaN inside the library routines (+-inf is covered as top/bottom element of each order type); objective values that collide in float32 (GetBestTrials '
             'converts labels to float32); SafetyChecker warping',
     assumptions=['comparison-only data dependence of the numeric Pareto routines (read off the code)'],
     obligations=_pareto_obls())
